@@ -15,7 +15,11 @@ Nums == << Nm(FALSE, <<1>>, 0, <<49>>), Nm(FALSE, <<1,0>>, -1, <<49,46,48>>), Nm
            \* beyond the int64 range with one or two significant digits; closer together than 1e-9; the ends of the exponent range
            Nm(FALSE, <<1>>, 19, <<49>> \o Z(19)), Nm(FALSE, <<1,6>>, 18, <<49,54>> \o Z(18)), Nm(TRUE, <<1>>, 19, <<45,49>> \o Z(19)),
            Nm(FALSE, <<2>>, -10, <<48,46>> \o Z(9) \o <<50>>), Nm(FALSE, <<3>>, -10, <<48,46>> \o Z(9) \o <<51>>),
-           Nm(FALSE, <<1>>, 125, <<49,69,49,50,53>>), Nm(FALSE, <<1>>, -130, <<49,69,45,49,51,48>>) >>
+           Nm(FALSE, <<1>>, 125, <<49,69,49,50,53>>), Nm(FALSE, <<1>>, -130, <<49,69,45,49,51,48>>),
+           \* leading zeros in front of digits that also read as octal: 010 is ten, 017 is seventeen
+           Nm(FALSE, <<0,1,0>>, 0, <<48,49,48>>), Nm(FALSE, <<0,1,7>>, 0, <<48,49,55>>),
+           \* a fraction binary floating point carries exactly, with another number of decimal places than -1.5
+           Nm(FALSE, <<1,2,5>>, -2, <<49,46,50,53>>) >>
 NS == { Nums[i] : i \in DOMAIN Nums }
 NS1 == NS \ { Nums[13] }     \* the second member of the generated number sets
 P(n) == <<[s |-> "n", n |-> n, i |-> 0]>>
